@@ -46,7 +46,7 @@ class C01(HistoryProperty):
     NONTRIVIAL_MEASURE = "history_with_hit"
 
     def gen_case(self, rng, tier):
-        cfg = gen.swarm_cfg(rng)
+        cfg = gen.swarm_cfg(rng, on=("dsclass",))
         spec = gen.prune(gen.gen_spec(rng, cfg))
         ops = gen_history(rng, cfg, spec)
         # derivations made from WARM datasets in the middle of the history (they share the parent's cache)
